@@ -893,7 +893,7 @@ fn mention(out: &mut Vec<GSpec>) {
             out.push(GSpec {
                 id: format!("mention_raw_{}{}", if quick { "q" } else { "t" }, ci),
                 family: "mention".into(),
-                quick: quick && ci == 0,
+                quick,
                 rules,
                 alphabet: "ab".into(),
                 max_len: 6,
